@@ -38,6 +38,7 @@ def plan(tier, seed):
     specs = [{"kind": "tapped", "start": p * (n // NSHARDS), "count": n // NSHARDS} for p in range(NSHARDS)]
     per = max(1, k // NSHARDS)
     specs += [{"kind": "statistical", "start": p * per, "count": per} for p in range(min(NSHARDS, k))]
+    specs += [{"kind": "huge", "start": 6 * p, "count": 6} for p in range(1 if tier == "quick" else 8)]
     return specs
 
 
@@ -87,6 +88,13 @@ def run_tapped_case(ctx, kind_, idx):
     cid = ctx.case_id(kind_, idx)
     n = int(rng.integers(1, 201))
     a, acls = gen_signal(rng, n)
+    if kind_ == "huge":
+        # a day of per-second traffic: 66 000..90 000 samples whose POWER varies along the series (quiet night, busy
+        # evening) - mean(y^2) is one number for the whole signal, whatever way it is accumulated
+        n = int(rng.integers(66000, 90001))
+        u = np.linspace(0.0, 1.0, n)
+        a = (0.2 + 4.0 * u ** 2) * (1.0 + 0.3 * np.sin(40 * u)) + rng.normal(0, 0.05, n)
+        acls = "long_varying_power"
     t = int(rng.integers(0, 6))
     # narrow / unsigned integer containers are only handed to the function itself: inside a Weaver every later shift or
     # scale would run into NumPy's own integer semantics (OverflowError for -2 on uint8), which no property speaks about
@@ -299,10 +307,10 @@ def run_statistical_case(ctx, kind_, idx):
 
 
 def run(ctx, spec):
-    f = run_tapped_case if spec["kind"] == "tapped" else run_statistical_case
+    f = run_statistical_case if spec["kind"] == "statistical" else run_tapped_case
     for idx in range(spec["start"], spec["start"] + spec["count"]):
         f(ctx, spec["kind"], idx)
 
 
 def replay(ctx, case):
-    (run_tapped_case if case["kind"] == "tapped" else run_statistical_case)(ctx, case["kind"], case["idx"])
+    (run_statistical_case if case["kind"] == "statistical" else run_tapped_case)(ctx, case["kind"], case["idx"])
